@@ -29,6 +29,7 @@ struct Shared {
 	r: [RwLock<P>; NR],
 	pm: Poisonable<Mutex<P>>,
 	owned: OwnedLockCollection<(Mutex<P>, RwLock<P>)>,
+	owned_r: OwnedLockCollection<(RwLock<P>, RwLock<P>)>,
 	boxed: BoxedLockCollection<Vec<RwLock<P>>>,
 	retry: RetryingLockCollection<[Mutex<P>; 2]>,
 	/// expected number of increments per payload slot (Relaxed counters)
@@ -39,6 +40,10 @@ struct Shared {
 	torn: AtomicU64,
 	sections: AtomicU64,
 	try_failures: AtomicU64,
+	/// per worker: op code * 10000 + i * 100 + j, and ops completed (stall diagnosis only)
+	trace: [AtomicU64; 16],
+	done_ops: [AtomicU64; 16],
+	finished: AtomicUsize,
 }
 
 fn pause(r: &mut Rng) {
@@ -80,13 +85,20 @@ fn rd(s: &Shared, p: &P, ridx: Option<usize>, r: &mut Rng) {
 	s.sections.fetch_add(1, Relaxed);
 }
 
-// payload slots: m[i] -> i, r[i] -> 3+i, pm -> 6, owned.0 -> 7, owned.1 -> 8, boxed[k] -> 9+k (2), retry[k] -> 11+k (2)
+// payload slots: m[i] -> i, r[i] -> 3+i, pm -> 6, owned.0 -> 7, owned.1 -> 8, boxed[k] -> 9+k (2), retry[k] -> 11+k (2), owned_r -> 13, 14
 
-fn worker(s: &Shared, seed: u64, ops: u32) {
+fn worker(s: &Shared, t: usize, seed: u64, ops: u32) {
 	let mut r = Rng::new(seed);
 	let mut key = ThreadKey::get().expect("fresh thread owns its key");
 	for _ in 0..ops {
-		match r.below(14) {
+		let op = r.below(18);
+		// peek at the operands the op is going to draw (same generator state)
+		let mut peek = r.clone();
+		let a = peek.below(3);
+		let b = peek.below(3);
+		s.trace[t].store(op as u64 * 10000 + a as u64 * 100 + b as u64, Relaxed);
+		s.done_ops[t].fetch_add(1, Relaxed);
+		match op {
 			0 => {
 				let i = r.below(NM as u32) as usize;
 				let mut g = s.m[i].lock(key);
@@ -197,6 +209,68 @@ fn worker(s: &Shared, seed: u64, ops: u32) {
 					s.try_failures.fetch_add(1, Relaxed);
 				}
 			}
+			14 => {
+				// collection try_read: the rollback of a refused member must release in shared mode
+				let i = r.below(NR as u32) as usize;
+				let j = (i + 1 + r.below(NR as u32 - 1) as usize) % NR;
+				let c = BoxedLockCollection::try_new([&s.r[i], &s.r[j]]).unwrap();
+				let res = c.try_read(key);
+				match res {
+					Ok(g) => {
+						rd(s, &g[0], Some(i), &mut r);
+						rd(s, &g[1], Some(j), &mut r);
+						key = BoxedLockCollection::<[&RwLock<P>; 2]>::unlock_read(g);
+					}
+					Err(k) => {
+						s.try_failures.fetch_add(1, Relaxed);
+						key = k;
+					}
+				};
+			}
+			15 => {
+				let i = r.below(NR as u32) as usize;
+				let j = (i + 1 + r.below(NR as u32 - 1) as usize) % NR;
+				let data = (&s.r[j], &s.r[i]);
+				let c = RefLockCollection::try_new(&data).unwrap();
+				let res = c.scoped_try_read(&mut key, |(a, b)| {
+					let mut r2 = Rng::new(seed ^ 0x99);
+					rd(s, a, Some(j), &mut r2);
+					rd(s, b, Some(i), &mut r2);
+				});
+				if res.is_err() {
+					s.try_failures.fetch_add(1, Relaxed);
+				}
+			}
+			16 => {
+				// owned collection: shared access and try paths
+				let res = s.owned_r.scoped_try_read(&mut key, |(a, b)| {
+					let mut r2 = Rng::new(seed ^ 0xAA);
+					rd(s, a, None, &mut r2);
+					rd(s, b, None, &mut r2);
+				});
+				if res.is_err() {
+					s.try_failures.fetch_add(1, Relaxed);
+				}
+			}
+			17 => {
+				if r.chance(1, 2) {
+					s.owned_r.scoped_lock(&mut key, |(a, b)| {
+						let mut r2 = Rng::new(seed ^ 0xBB);
+						wr(s, a, 13, &mut r2);
+						wr(s, b, 14, &mut r2);
+					});
+				} else {
+					// retrying collection over rwlocks, exclusive, in a random rotation
+					let k = r.below(NR as u32) as usize;
+					let idx = [k, (k + 1) % NR, (k + 2) % NR];
+					let c = RetryingLockCollection::try_new([&s.r[idx[0]], &s.r[idx[1]], &s.r[idx[2]]]).unwrap();
+					let mut g = c.lock(key);
+					for (q, i) in idx.iter().enumerate() {
+						wr(s, &mut g[q], 3 + *i, &mut r);
+					}
+					key = RetryingLockCollection::<[&RwLock<P>; 3]>::unlock(g);
+				}
+			}
 			12 => {
 				let mut g = match s.pm.lock(key) {
 					Ok(g) => g,
@@ -226,6 +300,7 @@ fn episode(seed: u64, threads: u32, ops: u32) -> (Vec<String>, u64, u64, u64) {
 		r: Default::default(),
 		pm: Poisonable::new(Mutex::new(P::default())),
 		owned: OwnedLockCollection::new((Mutex::new(P::default()), RwLock::new(P::default()))),
+		owned_r: OwnedLockCollection::new((RwLock::new(P::default()), RwLock::new(P::default()))),
 		boxed: BoxedLockCollection::new(vec![RwLock::new(P::default()), RwLock::new(P::default())]),
 		retry: RetryingLockCollection::new([Mutex::new(P::default()), Mutex::new(P::default())]),
 		want: Default::default(),
@@ -234,12 +309,56 @@ fn episode(seed: u64, threads: u32, ops: u32) -> (Vec<String>, u64, u64, u64) {
 		torn: AtomicU64::new(0),
 		sections: AtomicU64::new(0),
 		try_failures: AtomicU64::new(0),
+		trace: Default::default(),
+		done_ops: Default::default(),
+		finished: AtomicUsize::new(0),
 	};
 	std::thread::scope(|sc| {
 		for t in 0..threads {
 			let s = &s;
-			sc.spawn(move || worker(s, hash64(seed, t as u64), ops));
+			sc.spawn(move || {
+				worker(s, t as usize, hash64(seed, t as u64), ops);
+				s.finished.fetch_add(1, Relaxed);
+			});
 		}
+		// stall watchdog: no op completed anywhere for a long time while threads are unfinished
+		let s = &s;
+		sc.spawn(move || {
+			let mut last = 0u64;
+			let mut idle = 0u32;
+			loop {
+				// poll quickly for completion, count idleness in 100 ms units
+				let mut waited = 0;
+				while waited < 100 {
+					if s.finished.load(Relaxed) as u32 >= threads {
+						return;
+					}
+					if cfg!(miri) {
+						std::thread::yield_now();
+					} else {
+						std::thread::sleep(std::time::Duration::from_millis(1));
+					}
+					waited += 1;
+				}
+				let total: u64 = s.done_ops.iter().map(|d| d.load(Relaxed)).sum();
+				if total == last {
+					idle += 1;
+				} else {
+					idle = 0;
+					last = total;
+				}
+				if idle >= if cfg!(miri) { u32::MAX } else { 300 } {
+					let mut d = String::new();
+					for t in 0..threads as usize {
+						let v = s.trace[t].load(Relaxed);
+						d.push_str(&format!("t{t}: op{} operands({},{}) after {} ops; ", v / 10000, (v / 100) % 100, v % 100, s.done_ops[t].load(Relaxed)));
+					}
+					println!("{{\"property_id\":\"racefam\",\"stalled\":true,\"detail\":\"{d}\"}}");
+					eprintln!("STALL: no worker completed an operation for 30 s: {d}");
+					std::process::exit(3);
+				}
+			}
+		});
 	});
 	let mut errs = Vec::new();
 	let torn = s.torn.load(Relaxed);
@@ -252,7 +371,7 @@ fn episode(seed: u64, threads: u32, ops: u32) -> (Vec<String>, u64, u64, u64) {
 	let maxr = s.max_readers.load(Relaxed) as u64;
 	// conservation through into_inner
 	let Shared {
-		m, r, pm, owned, boxed, retry, ..
+		m, r, pm, owned, owned_r, boxed, retry, ..
 	} = s;
 	let mut got: Vec<(usize, P)> = Vec::new();
 	for (i, x) in m.into_iter().enumerate() {
@@ -277,6 +396,9 @@ fn episode(seed: u64, threads: u32, ops: u32) -> (Vec<String>, u64, u64, u64) {
 	for (k, p) in retry.into_inner().into_iter().enumerate() {
 		got.push((11 + k, p));
 	}
+	let (a, b) = owned_r.into_inner();
+	got.push((13, a));
+	got.push((14, b));
 	for (slot, p) in got {
 		if p.a != want[slot] || p.b != want[slot] {
 			errs.push(format!(
@@ -292,9 +414,9 @@ pub fn run(cfg: &RunCfg) -> Report {
 	let (episodes, threads, ops) = if cfg.miri {
 		(1u64, 3u32, 5u32)
 	} else if cfg.thorough {
-		(400, 8, 400)
+		(3000, 8, 600)
 	} else {
-		(60, 8, 200)
+		(600, 8, 400)
 	};
 	let mut rep = Report::default();
 	for e in 0..episodes {
